@@ -208,6 +208,26 @@ func reach(c *explore.Ctx, visit func(scope string, idx int64, st *state)) {
 			emit(scope+"/m", int64(wi), &state{desc: "merged twice-with-itself " + desc, bytes: mb, n: int64(mn), want: want, mode: 1025, depth: 1, merged: true})
 		}
 	}
+	// ALLDV: every field of the segment, `_id` included, indexes doc values (no field contributes the
+	// "not uninverted" filler to the doc-value index; the index is the last thing before the fields section)
+	{
+		mk := func(nd int, extra bool) []model.Doc {
+			var b []model.Doc
+			for d := 0; d < nd; d++ {
+				doc := model.Doc{{N: "_id", Len: 1, DV: true, Terms: []model.Term{{T: fmt.Sprintf("id%d", d), Freq: 1}}}}
+				if extra {
+					doc = append(doc, model.Field{N: "b", Len: 1, DV: true, Terms: []model.Term{{T: "x", Freq: 1}}})
+				}
+				b = append(b, doc)
+			}
+			return b
+		}
+		for ai, batch := range [][]model.Doc{mk(1, false), mk(2, false), mk(1, true), mk(3, true)} {
+			if c.MineIdx("R0-ALLDV", int64(ai)) {
+				builtState("R0-ALLDV", int64(ai), batch, 1025)
+			}
+		}
+	}
 	// partners for depth 2
 	partners := [][]model.Doc{
 		{gen.MixDoc(2, "p", 0), gen.MixDoc(1, "p", 1)},
